@@ -1,6 +1,6 @@
 (* C02 - a failed instruction leaves the machine state untouched and is skipped. *)
 From Coq Require Import List ZArith NArith Floats Bool.
-From UEC Require Import Base.I64 Push.Stack Push.Syntax Push.Spec Push.SpecProps Push.Run Push.RunProps.
+From UEC Require Import Base.I64 Push.Stack Push.Syntax Push.Spec Push.SpecProps Push.Run Push.RunProps Push.Impl Push.Refine.
 Import ListNotations.
 
 (* the state carried by ANY error - recoverable or fatal - of ANY program element
@@ -8,20 +8,28 @@ Import ListNotations.
    equality, i.e. every stack with its capacity, the output buffer, the inputs and
    the step limit.  For every state and every report order. *)
 Theorem C02_err_state : forall prec p s s',
-  err_state (perform_prog prec p s) = Some s' -> s' = s.
+  err_state (Spec.perform_prog prec p s) = Some s' -> s' = s.
 Proof. exact perform_prog_err_unchanged. Qed.
 Print Assumptions C02_err_state.
 
+(* the same for the code AS IT IS COMPOSED (pop-then-push, push-then-discard, pre-checks): here the
+   hypothesis that every stack is within its capacity is needed - and it is an invariant of every state
+   a program can reach (C03_sizes) and of every state the builder produces *)
+Theorem C02_err_state_impl : forall p s s',
+  wf s -> err_state (Impl.perform_prog p s) = Some s' -> s' = s.
+Proof. exact impl_err_unchanged. Qed.
+Print Assumptions C02_err_state_impl.
+
 (* recoverable = a missing operand or an arithmetic fault; fatal = an overflow *)
 Theorem C02_recoverable_kinds : forall prec p s s' e,
-  perform_prog prec p s = Rec s' e -> e = EIntOverflow \/ exists a b, e = EUnderflow a b.
+  Spec.perform_prog prec p s = Rec s' e -> e = EIntOverflow \/ exists a b, e = EUnderflow a b.
 Proof. exact perform_prog_rec. Qed.
 Print Assumptions C02_recoverable_kinds.
 
 (* after a recoverable error the interpreter is exactly where it would be had the
    failed instruction been a no-op *)
 Theorem C02_skip : forall prec s n p s1 s2 e,
-  pop_exec s = Some (p, s1) -> perform_prog prec p s1 = Rec s2 e ->
+  pop_exec s = Some (p, s1) -> Spec.perform_prog prec p s1 = Rec s2 e ->
   step prec (Running s n) = Running s1 (n + 1) /\
   step prec (Running s n) = step prec (Running (set_exec (with_elems (PI Noop :: elems (exec s1)) (exec s1)) s1) n).
 Proof. exact step_skips. Qed.
@@ -30,9 +38,9 @@ Print Assumptions C02_skip.
 (* non-vacuity: each fault class on a state with data in the other stacks and a non-empty output *)
 Example C02_examples :
   let s := St (SS 3%N [PI Noop]) (SS 2%N [9223372036854775807; 1]%Z) (SS 1%N []) (SS 1%N [true]) [(0, LInt 5)]%Z [TInt 1%Z] 9%N in
-  perform_prog code_prec (PI (IBin Add)) s = Rec s EIntOverflow /\
-  perform_prog code_prec (PI (FBin FAdd)) s = Rec s (EUnderflow 2 0) /\
-  perform_prog code_prec (PI (IPred IsZero)) s = Fatal s EOverflow /\
-  perform_prog code_prec (PI (InputVar 0)) s = Fatal s EOverflow /\
-  perform_prog code_prec (PB [PI Noop; PI Noop; PI Noop]) s = Fatal s EOverflow.
+  Spec.perform_prog code_prec (PI (IBin Add)) s = Rec s EIntOverflow /\
+  Spec.perform_prog code_prec (PI (FBin FAdd)) s = Rec s (EUnderflow 2 0) /\
+  Spec.perform_prog code_prec (PI (IPred IsZero)) s = Fatal s EOverflow /\
+  Spec.perform_prog code_prec (PI (InputVar 0)) s = Fatal s EOverflow /\
+  Spec.perform_prog code_prec (PB [PI Noop; PI Noop; PI Noop]) s = Fatal s EOverflow.
 Proof. repeat split. Qed.
